@@ -135,6 +135,48 @@ PROPS = {
         "level_note": "Trusted: Lean kernel; harness canonicalisation; mvdan.cc/sh as the shell (oracle for `words`); unicode tables of the Go toolchain. "
                       "Open finding: forwarded values that contain a template action are evaluated by the template engine (DESIGN §8 row 26).",
     },
+    "C04": {
+        "lean": "Props.C04",
+        "domains": [{"name": "fingerhist-c04"}],
+        "cli": True,
+        "trusted": ["the hash (xxh3-128) is uninterpreted: theorems speak of the byte stream fed to it; the harness checks that every stored "
+                    "checksum is xxh3 of the model's stream; what one glob pattern matches (mvdan/sh expansion) is an oracle",
+                    "the harness's copy of the goodRun monitor is tied to the Lean definition by comparing its verdict (g=) on every step"],
+        "assumptions": ["status: commands are `test -f`, commands only write their declared files and append to a trace; no deps, "
+                        "no preconditions, no sub-task calls; sources readable; explicit whole-second mtimes"],
+        "level_text": "Theorems over TaskModel.Finger.invoke (mirror of RunTask / IsTaskUpToDate / Checksum- and TimestampChecker): C04_partial "
+                      "(method checksum, pairwise distinct normalised names, histories of any length made of successful runs, runs failing in the "
+                      "command loop, --dry, --status, --force, list/summary queries and arbitrary file edits: skip implies goodRun) and five "
+                      "decide-checked counterexamples to C04_full. Tie: Gen.DryWiring / Gen.FingerOrder tables proved equal to the skeleton the "
+                      "model was written against; random histories through the real CLI binary compared step by step (exit class, commands run, "
+                      "tree incl. .task) with the model; the property monitor skip⇒goodRun evaluated on the real observations.",
+        "level_note": "Trusted: Lean kernel; harness canonicalisation (mtimes rebased to a logical clock); hash uninterpreted; glob expansion is an oracle.",
+    },
+    "C05": {
+        "lean": "Props.C05",
+        "domains": [{"name": "globs"}, {"name": "fingerhist-c05"}],
+        "cli": True,
+        "trusted": ["mvdan/sh glob semantics is an oracle (per-pattern match sets come from the real expander run on that pattern alone)",
+                    "hash uninterpreted; fingerprint inequality needs the explicit hypothesis HashInj on the two streams involved"],
+        "assumptions": ["as C04; timestamp idempotence under the side condition 'no source newer than the last run'"],
+        "level_text": "Theorems: C05_globs (for every pattern list and file set: p ∈ Globs ⇔ the last pattern matching p is positive; result strictly "
+                      "sorted), C05_idem (both methods), C05_force, C05_missing_generates, C05_status_fails, C05_detect_checksum (edit/add/remove/"
+                      "rename-in-place change the stream), C05_mtime, and C05_counterexample (directory move) with C05_detect_partial. Tie: "
+                      "fingerprint.Globs run in-process on random trees and glob/exclude lists; CLI histories with file operations between runs.",
+        "level_note": "Trusted: Lean kernel; harness; glob expansion oracle; hash uninterpreted (HashInj explicit).",
+    },
+    "C12": {
+        "lean": "Props.C12",
+        "domains": [{"name": "fingerhist-c12"}],
+        "cli": True,
+        "trusted": ["status:/sh: commands are assumed side-effect free (they do run in query modes by design)"],
+        "assumptions": ["as C04; remote includes (cache writes) are outside the model"],
+        "level_text": "Theorems: C12_full (every read-only invocation --dry/--status/--list[-all] [--json]/--summary leaves the state unchanged and runs "
+                      "no command) and C12_continuation (H;R;K ≈ H;K for all histories) for the model with the dry wiring proved equal to the "
+                      "extracted Gen.DryWiring table; counterexamples for the wiring as found (F7, F11). Tie: snapshot of the tree before/after every "
+                      "read-only CLI invocation in random histories, and the same history re-run without its read-only steps.",
+        "level_note": "Trusted: Lean kernel; harness snapshot (names, contents, logical mtimes; directories' own mtimes ignored).",
+    },
 }
 
 
@@ -342,6 +384,73 @@ def _pred_root_ref_flatten(m):
 FINDING_PREDICATES.update({
     "C08-root-ref-depth2": _pred_root_ref_depth2,
     "C08-root-ref-flatten": _pred_root_ref_flatten,
+})
+
+def _mon(m, prop):
+    """facts of a `finger.mon <prop> <step> <task>` violation line (None if m is something else)"""
+    cl = m.get("case_line", "").split()
+    il = m.get("impl", "").split()
+    if len(cl) < 4 or cl[0] != "finger.mon" or cl[1] != prop or not il or il[0] != "viol" or m.get("model") != "ok":
+        return None
+    f = dict(t.split("=", 1) for t in il[1:] if "=" in t)
+    f["step"], f["task"] = cl[2], cl[3]
+    return f
+
+
+def _norm(s):
+    return "".join(ch if ("A" <= ch <= "z" or "0" <= ch <= "9") else "-" for ch in s)
+
+
+def _same_key(m, f):
+    """the violating task and the task of the step that wrote the stored fingerprint are different
+    tasks whose store keys coincide (checksum: label or name; timestamp: name)"""
+    try:
+        ts = m["case"]["tasks"]
+        a, b = ts[int(f["task"])], ts[int(f["wtask"])]
+    except Exception:
+        return False
+    if f["task"] == f["wtask"]:
+        return False
+    if f.get("method") == "timestamp":
+        return _norm(a["name"]) == _norm(b["name"])
+    return _norm(a.get("label") or a["name"]) == _norm(b.get("label") or b["name"])
+
+
+def _c04(cond):
+    def p(m):
+        f = _mon(m, "c04")
+        return bool(f) and f.get("kind") == "skip-not-good" and cond(m, f)
+    return p
+
+
+def _c05(cond):
+    def p(m):
+        f = _mon(m, "c05")
+        return bool(f) and cond(m, f)
+    return p
+
+
+FINDING_PREDICATES.update({
+    # the step that last wrote the stored fingerprint was a run of the same task cancelled at the prompt
+    "C04-prompt-declined-after-fingerprint": _c04(lambda m, f: f.get("wexit") == "cancelled" and f.get("wmode") == "run" and f.get("wtask") == f["task"]),
+    # … or was killed / the most recent attempt at this fingerprint was killed
+    "C04-killed-before-last-command": _c04(lambda m, f: (f.get("wexit") == "killed" and f.get("wtask") == f["task"]) or f.get("laexit") == "killed"),
+    # method timestamp and the run that last touched the marker (or the last attempt) failed
+    "C04-timestamp-failed-run": _c04(lambda m, f: f.get("method") == "timestamp" and
+                                     ((f.get("wexit") == "failed" and f.get("wtask") == f["task"]) or f.get("laexit") == "failed")),
+    # the stored fingerprint was written by a different task with the same normalised name
+    "C04-normalised-name-collision": _c04(_same_key),
+    # method timestamp, last run fine, but a generates pattern matches nothing
+    "C04-timestamp-missing-generates": _c04(lambda m, f: f.get("method") == "timestamp" and f.get("gens") == "0" and f.get("laexit") == "ok"),
+    # method timestamp, never attempted and no marker before: decided by the generates' mtimes alone
+    "C04-timestamp-never-ran": _c04(lambda m, f: f.get("method") == "timestamp" and f.get("lastatt") == "-" and f.get("writer") == "-"),
+    # method timestamp, last attempt fine, generates there, but a source is newer than that attempt (and not
+    # newer than the marker, which every check — also a skipped one — moves to the time of the check)
+    "C04-timestamp-marker-moved-by-every-check": _c04(lambda m, f: f.get("method") == "timestamp" and f.get("gens") == "1" and
+                                                      f.get("laexit") == "ok" and f.get("srcnewer") == "1"),
+    # same multiset of (base name, content), different paths
+    "C05-dir-move-not-detected": _c05(lambda m, f: f.get("kind") == "change-not-detected" and f.get("samebases") == "1" and f.get("method") == "checksum"),
+    "C05-timestamp-missing-generates": _c05(lambda m, f: f.get("kind") == "missing-generates-skipped" and f.get("method") == "timestamp"),
 })
 
 HOOK_COMMITS = []
